@@ -372,7 +372,7 @@ func c16Prepare(c *Ctx, shape string, n int) (*c16Base, error) {
 	return b, nil
 }
 
-const c16Deadline = 45 * time.Second
+const c16Deadline = 30 * time.Second
 
 // c16Tree remembers what is on disk at the target so that consecutive cases over the same
 // (shape, damage) reuse it; consumers that write into the target (healers) invalidate it.
@@ -763,7 +763,10 @@ func runC16(c *Ctx) error {
 	healers := []string{"healer", "healer-noarchive", "healer-corrupt"}
 	cancels := []string{"none", "none", "before", "timer", "progress", "message", "lastprogress"}
 	procs := []int{1, 4, 16}
-	trees := c.N(20, 420)
+	trees := c.N(20, 300)
+	if c.Tier == "search" { // after a correspondence break: a different seed, moderately more cases
+		trees = 40
+	}
 	for t := 0; t < trees && !hung; t++ {
 		tr := r.Fork()
 		sh := shapes[tr.Intn(len(shapes))]
